@@ -59,6 +59,12 @@ pub fn run(cases: &[Vec<String>]) {
                 let seed: u64 = u.get(5).and_then(|s| s.parse().ok()).unwrap_or(1);
                 run_async_case(seed, move || crate::ua::run_case(u))
             }
+            "conn" => {
+                // id c16 conn <in|out> <history>: a connection-oriented transport through the C15 harness; the last
+                // observation is taken after every handle was dropped and 70 s passed
+                let u = vec![c[0].clone(), "c15".into(), c[3].clone(), c[4].clone()];
+                run_async_case(1, move || crate::c15::run_case(u))
+            }
             "stun" => {
                 // id c16 stun <reliable> <response ms|-> <wrong-id ms|-> <mode>  -> the C20 client harness
                 let mut u = vec![c[0].clone(), "c20".into(), "cli".into()];
